@@ -1,6 +1,6 @@
 //verif:package github.com/kstenerud/go-concise-encoding/builder
 //verif:config cap=300
-//verif:bounds unmarshal side: a map of one key/value pair with a key of 1..4 symbolic ASCII bytes, and of 2 (quick) / 3 (thorough) pairs with keys of 1..2 bytes, into a struct with 5 reachable fields (plain, tagged name, name with underscore, field of an embedded struct, unexported); every value a symbolic uint64; case-insensitive matching on and off
+//verif:bounds unmarshal side: a struct with embedded structs nested four deep (10 fields, all named by the document, symbolic values); a map of one key/value pair with a key of 1..4 symbolic ASCII bytes, and of 2 (quick) / 3 (thorough) pairs with keys of 1..2 bytes, into a struct with 5 reachable fields (plain, tagged name, name with underscore, field of an embedded struct, unexported); every value a symbolic uint64; case-insensitive matching on and off
 //verif:assume the real builder Session/BuilderEventReceiver/structBuilder run on the engine's reflect emulation (New, Elem, Field, SetUint, Type.Field, tags) and a sequential model of sync.Map/WaitGroup; keys are ASCII (strings.ToLower on non-ASCII runs the Unicode tables and is outside the bound)
 package builder
 
@@ -21,6 +21,59 @@ type C21Dst struct {
 	E_f uint64
 	C21Inner
 	hid uint64
+}
+
+// embedded structs nested four deep, two fields at every level
+type C21E4 struct{ P4, Q4 uint64 }
+type C21E3 struct {
+	C21E4
+	P3, Q3 uint64
+}
+type C21E2 struct {
+	C21E3
+	P2, Q2 uint64
+}
+type C21E1 struct {
+	C21E2
+	P1, Q1 uint64
+}
+type C21Deep struct {
+	C21E1
+	P0, Q0 uint64
+}
+
+// Every field of a deeply embedded struct is reachable under its own name.
+func Verif_C21_DeepEmbeddedKeys() {
+	names := []string{"P0", "Q0", "P1", "Q1", "P2", "Q2", "P3", "Q3", "P4", "Q4"}
+	vals := make([]uint64, len(names))
+	for i := range vals {
+		vals[i] = verifrt.U64("value")
+	}
+	first := verifrt.Choice("firstKey", len(names)) // keys arrive in any rotation of the declaration order
+	cfg := configuration.New()
+	r := NewSession(nil, cfg).NewBuilderFor(C21Deep{})
+	rejected := verifh.Try(func() {
+		r.OnBeginDocument()
+		r.OnVersion(0)
+		r.OnMap()
+		for k := range names {
+			i := (first + k) % len(names)
+			r.OnStringlikeArray(events.ArrayTypeString, names[i])
+			r.OnPositiveInt(vals[i])
+		}
+		r.OnEndContainer()
+		r.OnEndDocument()
+	})
+	verifrt.Reach("built")
+	verifrt.Assert(!rejected, "a map naming every field unmarshals")
+	got, ok := r.GetBuiltObject().(*C21Deep)
+	verifrt.Assert(ok && got != nil, "a struct of the template's type is built")
+	have := []uint64{got.P0, got.Q0, got.P1, got.Q1, got.P2, got.Q2, got.P3, got.Q3, got.P4, got.Q4}
+	ok2 := true
+	for i := range have {
+		ok2 = verifrt.And(ok2, have[i] == vals[i])
+	}
+	verifrt.Assert(ok2, "each field of every embedding level holds the value given under its name")
 }
 
 // c21Norm is the documented key normalisation: ASCII lower case, '_' and ' ' removed.
